@@ -83,7 +83,11 @@ CHECKS["C06"] = {
     "design_ref": "DESIGN.md 2/C06",
     "parts": [{"name": "twins", "exe": "c01_order", "sources": ["c01_order.cpp"], "sub": "c06", "shards": {"quick": 16, "thorough": 256}},
               {"name": "ports", "exe": "c06_ports", "sources": ["c06_ports.cpp"], "shards": 16},
-              {"name": "errcap", "exe": "c06_errcap", "sources": ["c06_errcap.cpp"], "shards": 8}],
+              {"name": "errcap", "exe": "c06_errcap", "sources": ["c06_errcap.cpp"], "shards": 8},
+              {"name": "swap", "exe": "c06_swap", "sources": ["c06_swap.cpp"], "shards": 16}],
+    "rule_keyed": "swap part: op(x,y), op(y,x), a duplicate op(x,y) and identical sinks on all three, for op in {lifted add_ on strings, lifted sub_ and add_ on "
+                  "ints, a static non-commutative node}; all 90 admissible orders of the six statements x every tick pattern of both sources over T=3 (4): every sink "
+                  "records the function of its own operands in its own order, both identical sinks run.",
     "rule": "errcap part: x -> Mid -> Risky (throws on negative input) and 2..3 independent blocks, each asking for the error time-series of Risky with its own capture options (trace depth 0/1/2, with / without input values), through equal sub-expressions (one shared instance) or one common port; every permutation of the block statements x every history with a throw: every block sees the same (message, back trace without node ids) stream in all orders, an error tick exactly in the throwing cycles. every base DAG program of <= N statements (vocabulary of C01 without inlining) with one statement duplicated in each of four "
             "ways — exact twin (same definition, inputs, scalars: may be shared), scalar variant, input variant, passive() marker on one "
             "input (each must stay a distinct node) — plus a combiner reading both and a sink on every port (twin sinks have equal keys and "
